@@ -266,6 +266,14 @@ class ModelLoader(object):
             if not isinstance(stmt, CreateAssociationStmt):
                 continue
             
+            for kind, keys in ((stmt.source_kind, stmt.source_keys),
+                               (stmt.target_kind, stmt.target_keys)):
+                metaclass = metamodel.find_metaclass(kind)
+                for key in keys:
+                    if metaclass.attribute_type(key) is None:
+                        raise ParsingException("%s:%d:%s is not an attribute of %s" % 
+                                               (stmt.filename, stmt.lineno, key, kind))
+            
             ass = metamodel.define_association(stmt.rel_id,
                                          stmt.source_kind,
                                          stmt.source_keys,
